@@ -113,13 +113,15 @@ def const_eval(e, params, what='constant expression'):
     raise ElabError('%s is not constant (%s)' % (what, k))
 
 
-def elaborate(text, top=None, blackboxes=(), external=()):
+def elaborate(text, top=None, blackboxes=(), external=(), lint_only=False):
     """Parse + elaborate. `top`: module name (default: first module in the text).
     `blackboxes`: module names allowed to be undefined. `external`: names in the top module
     driven by the testbench (no driver expected). Raises ParseError / ElabError for hard errors;
-    lint findings are collected in design.issues."""
+    lint findings are collected in design.issues.  lint_only: connections of inout ports are accepted (checked for
+    port name and width, their nets count as driven, any number of drivers); such a design must not be simulated."""
     mods = parse(text)
     d = Design()
+    d.lint_only = lint_only
     defs = {}
     for m in mods:
         if m.name in defs:
@@ -365,7 +367,7 @@ def _instantiate(d, m, path, parent, overrides, is_top):
                     d.assigns.append((child, plref, sc, e))
                 elif ps.dir == 'output':
                     d.assigns.append((sc, _expr_to_lvalue(e, m.name, it), child, pref))
-                else:
+                elif not getattr(d, 'lint_only', False):
                     raise Unsupported('inout port connection')
             for p in cdef.ports:
                 if p.name not in seen and p.dir == 'input':
@@ -480,6 +482,7 @@ def _lint_module(d, sc, is_top):
         drivers.setdefault(lref.name, []).append((kind, bits))
 
     reads = set()
+    tri = set()        # nets connected to an inout port of an instance: driven from there, any number of drivers
     procs = []
     for it in m.items:
         if it.kind == 'assign':
@@ -524,6 +527,9 @@ def _lint_module(d, sc, is_top):
                             add_driver(l, 'instance')
                     except ElabError as ex:
                         issue('R5', str(ex))
+                elif pdir == 'inout':
+                    _refs_in(e, reads)
+                    _refs_in(e, tri)
                 else:
                     _refs_in(e, reads)
     for r in sorted(reads):
@@ -551,13 +557,13 @@ def _lint_module(d, sc, is_top):
             rng = range(s.lsb, s.lsb + s.width) if bits is None else range(min(bits), max(bits) + 1)
             for b in rng:
                 cover[b] = cover.get(b, 0) + 1
-        if any(v > 1 for v in cover.values()):
+        if any(v > 1 for v in cover.values()) and n not in tri and s.dir != 'inout':
             issue('R6', 'net %s has more than one driver' % n)
     # undriven nets that are read or are outputs
     for n, s in sc.sigs.items():
         if s.dir == 'input' or s.dir == 'inout':
             continue
-        driven = n in drivers or n in byname or (s.init is not None)
+        driven = n in drivers or n in byname or (s.init is not None) or n in tri
         if not driven:
             if is_top and n in d.external:
                 continue
